@@ -311,6 +311,23 @@ class Freshness:
 
     # ----------------------------------------------------------------- eval
     def eval(self, fi: FuncInfo, e: ast.expr, at, env: Optional[Dict[str, AV]] = None, depth: int = 0) -> AV:
+        # a name whose definitions reach themselves (an accumulator updated in a loop) is evaluated once per
+        # (function, name, program point): a re-entry contributes nothing new to the join
+        if isinstance(e, ast.Name) and at is not None and not (env and e.id in env):
+            gkey = (fi.qualname, e.id, at.id)
+            active = getattr(self, "_name_active", None)
+            if active is None:
+                active = self._name_active = set()
+            if gkey in active:
+                return SCALAR
+            active.add(gkey)
+            try:
+                return self._eval_impl(fi, e, at, env, depth)
+            finally:
+                active.discard(gkey)
+        return self._eval_impl(fi, e, at, env, depth)
+
+    def _eval_impl(self, fi: FuncInfo, e: ast.expr, at, env: Optional[Dict[str, AV]] = None, depth: int = 0) -> AV:
         env = env or {}
         if depth > 25:
             return AV("unknown", why="depth")
@@ -430,6 +447,11 @@ class Freshness:
                     return AV("cont", "fresh", [b.elem()])
                 return b.elem()
             if b.kind == "arr":
+                # one integer index into a vector that is one-dimensional by the repository's conventions (weights,
+                # log-weights, log-likelihoods, labels) is a number, not a view
+                if isinstance(e.slice, ast.Constant) and isinstance(e.slice.value, int) and isinstance(e.value, ast.Name) \
+                        and e.value.id in ("weights", "w", "logw", "logl", "sample_weight", "labels", "assignments", "weights_trimmed", "cdf", "positions"):
+                    return SCALAR
                 # fancy indexing with an array/mask copies; basic slicing is a view
                 idx = e.slice
                 if self._is_basic_index(fi, idx, at, env, depth):
